@@ -895,6 +895,25 @@ impl<'a> Engine<'a> {
                     }
                 }
             }
+            // 4. canonical position: move every maintenance op as late as it still matters
+            for mi in 0..cur.maint.len() {
+                loop {
+                    let limit = if mi + 1 < cur.maint.len() { cur.maint[mi + 1].0 as usize } else { cur.steps() };
+                    if cur.maint[mi].0 as usize >= limit {
+                        break;
+                    }
+                    let mut cand = cur.clone();
+                    cand.maint[mi].0 += 1;
+                    match self.judge(&cand) {
+                        Some(d) if d.kind == kind => {
+                            cur = cand;
+                            cur_diff = d;
+                            changed = true;
+                        }
+                        _ => break,
+                    }
+                }
+            }
             if !changed {
                 break;
             }
@@ -1176,6 +1195,21 @@ impl Check for C04 {
         }
         let ps = passes(ctx);
         rep.bound("passes", json!(ps.iter().map(|p| json!({"name": p.name, "variants": p.vars.iter().map(|v| v.name()).collect::<Vec<_>>(), "alphabet": p.alphabet.iter().map(|o| o.name()).collect::<Vec<_>>(), "max_ops_after_create": p.max_ops, "maintenance": p.maints.iter().map(|m| m.name()).collect::<Vec<_>>(), "pairs": p.pairs, "rowid_compensation": p.comp})).collect::<Vec<_>>()));
+        if let Some(path) = ctx.opt("cases") {
+            // development aid: `--opt cases=<file>` judges an explicit JSON array of run keys (split by index)
+            let list: Vec<Value> = serde_json::from_slice(&std::fs::read(path).unwrap_or_default()).unwrap_or_default();
+            let mut eng = Engine::new(ctx);
+            for (i, c) in list.iter().enumerate() {
+                if !ctx.mine(i as u64) {
+                    continue;
+                }
+                if let Some(key) = RunKey::from_json(c) {
+                    check_case(&mut eng, rep, &key, "cases", true);
+                    rep.case(vcore::util::hash_of(&key), true);
+                }
+            }
+            return;
+        }
         let mut w = Walker { eng: Engine::new(ctx), rep, case_idx: 0, capped: false };
         for pass in &ps {
             // development aid: `--opt only=<pass name>` restricts the run to one pass
